@@ -298,6 +298,34 @@ VF_MAIN
     soxr_delete(p);
     VF_ASSERT(vf_live == 0 && ae_n_live == 0, "nothing of the old or the new engines is left behind (C10/C20)");
   }
+#elif VF_MODE == 4
+  {
+    /* C19: src_reset (== soxr_clear) on a converter made by src_new (LSR recipe SOXR_LSR0Q + id, rates 0/0, ratio supplied by the first
+     * src_process) "makes the converter behave like a new one": the next src_process may bring ANY ratio, as for a new converter.
+     * The RESET_ON_CLEAR bit comes from the REAL soxr_quality_spec for that recipe; the other spec fields stay symbolic. */
+#ifndef VF_LSRID
+#define VF_LSRID 3
+#endif
+    soxr_quality_spec_t lq = soxr_quality_spec(SOXR_LSR0Q + VF_LSRID, 0);
+    soxr_error_t e1, ec, e2;
+    VF_ASSUME(in_ch >= 1);
+    q.flags = (q.flags & ~(unsigned long)RESET_ON_CLEAR) | (lq.flags & RESET_ON_CLEAR);
+    p = soxr_create(0, 0, in_ch, &err, (in_have_io & 1)? &io : 0, &q, (in_have_rt & 1)? &rt : 0);
+    VF_ASSUME(p != 0);
+    e1 = soxr_set_io_ratio(p, .5, 0);           /* first stream: src_process(src_ratio 2.0) */
+    VF_ASSUME(e1 == 0);
+    ec = soxr_clear(p);                         /* src_reset */
+    VF_ASSERT(ec == 0 && p->error == 0, "src_reset succeeds and leaves no error (C19/C10)");
+    e2 = soxr_set_io_ratio(p, 2., 0);           /* second stream: src_process(src_ratio 0.5) */
+    VF_ASSERT(e2 == 0 && p->error == 0, "after src_reset the converter takes the ratio of the next block, as a new converter does (C19)");
+    VF_ASSERT(p->resamplers != 0 && p->io_ratio == 2., "after src_reset + a new ratio the converter is initialised at that ratio (C19)");
+    for (c = 0; c < VF_MAXCH; ++c) if (c < in_ch && p->resamplers) {
+      ae_chan_t * a = p->resamplers[c];
+      VF_ASSERT(a->created && !a->closed && a->io_ratio == 2., "every channel engine runs at the new ratio (C19)");
+    }
+    soxr_delete(p);
+    VF_ASSERT(vf_live == 0 && ae_n_live == 0, "nothing is left behind (C20)");
+  }
 #elif VF_MODE == 3
   {
     /* rates 0/0: soxr_create selects the engine but does not create it (no call through the control block) */
